@@ -227,6 +227,9 @@ impl<'a> Cluster<'a> {
                 let max = *sites.get(site)?;
                 ctr.set(ctr.get() + 1);
                 let d = mix(seed, ctr.get()) % (max + 1);
+                if std::env::var_os("DCSIM_DEBUG_JITTER").is_some() {
+                    eprintln!("jitter {site} #{} -> {d} at {:?}", ctr.get(), turmoil::elapsed());
+                }
                 if d == 0 {
                     None
                 } else {
